@@ -319,7 +319,7 @@ func Check(env *Env, prop Property, tier string, verifSeed uint64, workers int) 
 			if len(res.Violations) >= 3 {
 				shrinkBudget = 0 // enough minimised reports; the rest are reported as found
 			}
-			shrinkDeadline := time.Now().Add(90 * time.Second)
+			shrinkDeadline := time.Now().Add(60 * time.Second)
 			min, evals := tape.Shrink(f.tape, func(c []uint64) bool {
 				if time.Now().After(shrinkDeadline) {
 					return false
@@ -401,33 +401,35 @@ func Check(env *Env, prop Property, tier string, verifSeed uint64, workers int) 
 		"violations":  len(res.Violations),
 		"assumptions": prop.Assumptions(),
 		"coverage": map[string]interface{}{
-			"evaluations":          evaluations,
-			"distinct_nontrivial":  len(distinct),
-			"rule":                 prop.Rule(),
-			"samples":              samples,
-			"skipped":              skipped,
-			"skip_reasons":         skipReasons,
-			"scenario_budget":      count,
-			"budget_exhausted_by":  map[bool]string{true: "scenario count", false: "wall clock or early stop"}[evaluations >= count],
-			"workers":              workers,
-			"runs_per_hour":        perHour,
-			"seeds":                fmt.Sprintf("scenario i uses splitmix-derived seed Derive(VERIF_SEED=%d, i), i in [0,%d)", verifSeed, count),
-			"processes_launched":   st.Procs,
-			"ops_executed":         st.Ops,
-			"map_iteration_events": st.Events,
+			"evaluations":                        evaluations,
+			"distinct_nontrivial":                len(distinct),
+			"rule":                               prop.Rule(),
+			"samples":                            samples,
+			"skipped":                            skipped,
+			"skip_reasons":                       skipReasons,
+			"scenario_budget":                    count,
+			"budget_exhausted_by":                map[bool]string{true: "scenario count", false: "wall clock or early stop"}[evaluations >= count],
+			"workers":                            workers,
+			"runs_per_hour":                      perHour,
+			"seeds":                              fmt.Sprintf("scenario i uses splitmix-derived seed Derive(VERIF_SEED=%d, i), i in [0,%d)", verifSeed, count),
+			"processes_launched":                 st.Procs,
+			"ops_executed":                       st.Ops,
+			"map_iteration_events":               st.Events,
 			"map_iteration_events_non_canonical": st.NonCanon,
-			"process_timeouts":     st.Timeouts,
-			"process_crashes":      st.Crashes,
-			"distinct_histories":   len(histories),
-			"distinct_schedules":   len(schedules),
-			"fault_kinds":          sortedKeys(faults),
-			"probes":               sortedKeys(probes),
-			"simulated_time":       "n/a - coca reads no timer or deadline on any claimed path; progress is counted in operations and map-iteration events",
-			"components":           map[string]interface{}{"real": real, "stub": stub},
-			"seam_sites":           env.Sites,
-			"known_findings_hit":   res.KnownHits,
-			"build_wall_s":         env.BuildWall.Seconds(),
-			"exhaustive":           false,
+			"process_timeouts":                   st.Timeouts,
+			"process_crashes":                    st.Crashes,
+			"distinct_histories":                 len(histories),
+			"distinct_schedules":                 len(schedules),
+			"fault_kinds":                        sortedKeys(faults),
+			"probes":                             sortedKeys(probes),
+			"simulated_time":                     "n/a - coca reads no timer or deadline on any claimed path; progress is counted in operations and map-iteration events",
+			"components":                         map[string]interface{}{"real": real, "stub": stub},
+			"seam_sites":                         env.Sites,
+			"events_per_site":                    st.PerSite,
+			"sites_never_iterated":               neverIterated(env.Sites, st.PerSite),
+			"known_findings_hit":                 res.KnownHits,
+			"build_wall_s":                       env.BuildWall.Seconds(),
+			"exhaustive":                         false,
 		},
 	}
 	os.MkdirAll(filepath.Join(OutDir(env), "evidence"), 0755)
@@ -444,6 +446,16 @@ func Check(env *Env, prop Property, tier string, verifSeed uint64, workers int) 
 		res.Exit = 1
 	}
 	return res, nil
+}
+
+func neverIterated(sites []string, per map[string]int64) []string {
+	out := []string{}
+	for _, s := range sites {
+		if per[strings.TrimPrefix(s, "dep:")] == 0 {
+			out = append(out, s)
+		}
+	}
+	return out
 }
 
 // Replay re-executes a replay file with no PRNG and reports its violations.
